@@ -180,6 +180,58 @@ def toggle_debounced(res, tier, period_ticks):
 # ------------------------------------------------------------------------------------------ ButtonDebouncer
 
 
+def toggle_pair(res, tier, period_ticks):
+    """Two Toggle objects watching the same joystick button with the same debounce period: each must react only to the
+    samples *it* takes (monitors as for one debounced Toggle, kept per object)."""
+    from robotpy_ext.control.toggle import Toggle
+
+    P = F(period_ticks, 64)
+    ops = [(adv, lvl, which) for adv in (0, 1, 2) for lvl in (0, 1) for which in (0, 1)]
+    cap = P + F(5, 64)
+
+    def run(h):
+        env.align()
+        st = Stick()
+        ts = [Toggle(st, 3, debounce_period=float(P)), Toggle(st, 3, debounce_period=float(P))]
+        viol = []
+        state = [False, False]
+        last_change = [None, None]
+        seen_pressed = [False, False]  # has this object ever sampled a pressed button since its last change?
+        for i, (adv, lvl, w) in enumerate(h):
+            env.advance(adv)
+            now = env.now()
+            st.level = bool(lvl)
+            out = bool(ts[w].get()) if i % 2 == 0 else bool(ts[w].on)
+            if lvl:
+                seen_pressed[w] = True
+            if out != state[w]:
+                if not lvl:
+                    viol.append(("pair:change-while-released", f"step {i}: toggle {w} changed at a sample whose raw level is released (it has {'never' if not seen_pressed[w] else 'not now'} sampled a pressed button)"))
+                if last_change[w] is not None and now - last_change[w] < P:
+                    viol.append(("pair:changes-closer-than-period", f"step {i}: toggle {w} changed at {now}, its previous change was at {last_change[w]}, period {P}"))
+                state[w] = out
+                last_change[w] = now
+                seen_pressed[w] = bool(lvl)
+            if viol:
+                break
+        now = env.now()
+        fp = []
+        for t in ts:
+            for k, v in sorted(vars(t).items()):
+                if isinstance(v, (bool, int)):
+                    fp.append((k, v))
+            deb = getattr(t.joystickget, "__self__", None)
+            if deb is not None:
+                for k, v in sorted(vars(deb).items()):
+                    if isinstance(v, float) and k != "debounce_period":
+                        fp.append((k, rel(v, now, cap)))
+        key = (tuple(state), tuple(rel(x, now, cap) if x is not None else None for x in last_change), st.level, tuple(fp))
+        res.outcome(f"tp2:{key[0]}:{key[1]}")
+        return key, viol
+
+    bfs(f"TogglePair(debounce={period_ticks}t)", ops, run, res, 6 if tier == "quick" else 8, 3)
+
+
 def debouncer(res, tier, period_ticks):
     from robotpy_ext.control.button_debouncer import ButtonDebouncer
 
@@ -350,12 +402,13 @@ def main(tier, seed):
         toggle_debounced(res, tier, p)
         debouncer(res, tier, p)
         periodic_filter(res, tier, p)
+    toggle_pair(res, tier, 3)
     watchdog(res, tier)
     rule = (
         "explicit-state BFS with replay on the real objects, state = (monitor state, implementation fields with clocks made relative and clamped): "
         "Toggle without debounce: ops (level, accessor in get/on/off/bool), exact edge-detector model, closed; Toggle with debounce (periods 2, 3 ticks): "
         "ops (advance 0/1/2/4 ticks, level, accessor), monitors: changes at least a period apart, only at a pressed sample, never while held/released throughout, "
-        "on == not off; ButtonDebouncer: True only if pressed, two Trues more than the period apart, pressed and more than a period since the last True implies True; "
+        "on == not off; two debounced Toggles on the same button (each reacts only to its own samples); ButtonDebouncer: True only if pressed, two Trues more than the period apart, pressed and more than a period since the last True implies True; "
         "PeriodicFilter with the module clock substituted: records at/above the bypass level always pass, passed lower-level records at least a period apart; "
         "SimpleWatchdog: advance in {0, timeout-1us, timeout, timeout+1us, 1 s, 1 s+1us}, reset, addEpoch, isExpired (exact integer-microsecond model), printIfExpired "
         "(captured warnings at least 1 s apart, only when expired). Flat sequences to the stated depth are run as an unmerged cross-check."
